@@ -26,14 +26,15 @@ vars == <<pool, focus, nb>>
 
 (* ---- the machine ----------------------------------------------------------*)
 RIds(r) == Ids(Mk(r))
-ArgSets == { S \in SUBSET (Leaves \cup pool) : Cardinality(S) >= 1 /\ Cardinality(S) <= MaxKids }
+Usable == Leaves \cup { r \in pool : r.c # "Cfg" }      \* a configurator is never an argument
+ArgSets == { S \in SUBSET Usable : Cardinality(S) >= 1 /\ Cardinality(S) <= MaxKids }
 \* arguments must have pairwise distinct ids and may not (re)define an id of another argument's sub tree differently
 Compatible(S) == /\ \A x, y \in S : x # y => Mk(x).id # Mk(y).id
 Adversarial == ExpIds # {}
 ArgSeqs(cls) ==
   IF Adversarial /\ cls \notin {"Not", "Imply"} THEN { SetToSeq(S) : S \in ArgSets }
-  ELSE IF cls = "Not" THEN { <<x>> : x \in Leaves \cup pool }
-  ELSE IF cls = "Imply" THEN { <<x, y>> : x, y \in Leaves \cup pool } \ { <<x, x>> : x \in Leaves \cup pool }
+  ELSE IF cls = "Not" THEN { <<x>> : x \in Usable }
+  ELSE IF cls = "Imply" THEN { <<x, y>> : x, y \in Usable } \ { <<x, x>> : x \in Usable }
   ELSE { SetToSeq(S) : S \in { S \in ArgSets : Compatible(S) } }
 ValOpts(cls)  == IF cls \in {"AtLeast", "AtMost"} THEN Values ELSE {0}
 SignOpts(cls) == IF cls = "AtLeast" THEN SignArgs ELSE {0}
@@ -105,6 +106,11 @@ C08 == (~IsAtom(F) /\ WellDefined(F)) => \A D \in Dicts(Ids(F)) :
           LET m == Assm(F, D) r == IF IsAtom(m) THEN m ELSE Red(m) IN
           /\ NoConstInside(r)
           /\ \A a0 \in Box(F) : LET a == Restr(AsIv(a0), DOMAIN a0 \ DOMAIN D) IN Iv(r, a) = Iv(m, a)
+\* C16 / C17 on the specification: the abstract JSON codec (recipe -> document -> recipe) and the base64 codec are
+\* identities on recipes, so the round trip rebuilds the same node; what is stated here is that the node a
+\* recipe denotes is determined by the recipe (Mk is a function) and has the recipe's leaves.
+C16 == ~IsAtom(F) => LeafIds(F) = RLeafIds(focus)
+C17 == C16
 \* C10: the two classes of models validation must accept are well defined; outside adversarial mode
 \* the builder produces nothing else
 C10 == /\ (~IsAtom(F) /\ (TreeDistinct(F) \/ SharesIdenticalOnly(F))) => WellDefined(F)
